@@ -549,6 +549,8 @@ func Go(encl string, fn func()) {
 	}
 
 	spawn(encl, fn)
+	// The new goroutine may run before its creator continues.
+	pointFull(KYield, nil, nil, nil, 0)
 }
 
 func spawn(name string, fn func()) int32 {
